@@ -10,6 +10,7 @@ import (
 	"os"
 	"strconv"
 	"sync"
+	"sync/atomic"
 	"time"
 )
 
@@ -54,10 +55,11 @@ type dgram struct {
 
 // Net is the virtual network.
 type Net struct {
-	mu    sync.Mutex
-	start time.Time
-	eps   map[string]*Endpoint
-	Tap   []Event
+	mu       sync.Mutex
+	overflow atomic.Int64
+	start    time.Time
+	eps      map[string]*Endpoint
+	Tap      []Event
 
 	// Faults[from] is the per-index fault list for datagrams sent by endpoint `from`.
 	Faults map[string][]Fault
@@ -458,8 +460,14 @@ func (e *Endpoint) deliver(d dgram) {
 	select {
 	case e.inbox <- d:
 	default: // receive queue overflow: dropped, like a socket buffer
+		e.net.overflow.Add(1)
 	}
 }
+
+// Overflowed returns how many datagrams were dropped because a receive queue (8192 datagrams) was full:
+// a burst the receiving goroutine did not drain in time. Which datagrams these are depends on goroutine
+// scheduling, so a check that judges delivery must treat a run with overflow as not judged.
+func (n *Net) Overflowed() int { return int(n.overflow.Load()) }
 
 type timeoutErr struct{}
 
